@@ -28,6 +28,8 @@ pub enum Mode {
     Slow,
     CloseOnMessage,
     ErrorReplies,
+    /// stops reading for 750 ms while a client pushes ten 1 MiB statements through the mirrored server, then reads on
+    StallThenResume,
 }
 
 #[derive(Clone, Debug, Serialize, Deserialize)]
@@ -61,7 +63,7 @@ impl Part for WirePart {
         true
     }
     fn rule(&self) -> String {
-        "1..2 shards of one primary (+ optional replica), 0..3 mirrors attached to generated (shard, server index) pairs, each mirror in one of {up, accept-and-close, dead port, refusing authentication, hanging at start-up, hanging at the first query, slow, closing on the first message, answering with errors}; 1..2 clients run 1..3 generated transactions (simple, multi-statement, blocks, extended batches, COPY IN/OUT) on a selected shard. Oracles: every request is answered with the client's own rows within 600 ms plus the statement's own scripted delay (one client pause of 520 ms lets the mirror pool's 400 ms connect timeout elapse) (mirror faults last the whole case, so any waiting on a mirror shows); the byte stream each mirror session received splits into whole units (runs of messages ending in Query/Sync/CopyDone/CopyFail, single CopyData) that form an in-order subsequence of the units one session of the mirrored server received, byte-exact (a truncated last unit is tolerated only on a session the mirror itself broke). Non-trivial = a mirror that is not plainly up, or a mirror configured on only one of two shards".into()
+        "1..2 shards of one primary (+ optional replica), 0..3 mirrors attached to generated (shard, server index) pairs, each mirror in one of {up, accept-and-close, dead port, refusing authentication, hanging at start-up, hanging at the first query, slow, closing on the first message, answering with errors, not reading for 750 ms while ten 1 MiB statements pass through the mirrored server and then reading on}; 1..2 clients run 1..3 generated transactions (simple, multi-statement, blocks, extended batches, COPY IN/OUT) on a selected shard. Oracles: every request is answered with the client's own rows within 600 ms plus the statement's own scripted delay (one client pause of 520 ms lets the mirror pool's 400 ms connect timeout elapse) (mirror faults last the whole case, so any waiting on a mirror shows); the byte stream each mirror session received splits into whole units (runs of messages ending in Query/Sync/CopyDone/CopyFail, single CopyData) that form an in-order subsequence of the units one session of the mirrored server received, byte-exact (a truncated last unit is tolerated only on a session the mirror itself broke). Non-trivial = a mirror that is not plainly up, or a mirror configured on only one of two shards".into()
     }
     fn cases(&self, tier: Tier) -> u64 {
         tier.pick(800, 12_000)
@@ -77,6 +79,7 @@ impl Part for WirePart {
             1 => Just(Mode::Slow),
             1 => Just(Mode::CloseOnMessage),
             1 => Just(Mode::ErrorReplies),
+            1 => Just(Mode::StallThenResume),
         ];
         let mirror = (0u8..2, 0u8..2, mode).prop_map(|(shard, target, mode)| MirrorSpec { shard, target, mode });
         (1u8..=2, any::<bool>(), prop::collection::vec(mirror, 0..4), prop::collection::vec((0u8..2, prop::collection::vec(prog::txn_strategy(), 1..4)), 1..3), prop_oneof![Just(1u8), Just(2u8), Just(4u8)])
@@ -217,6 +220,7 @@ async fn run_case(c: &Case, ctx: &mut WorkerCtx) -> Outcome {
             Mode::Slow => mock.set_slow(250),
             Mode::CloseOnMessage => mock.set_fault(Fault::CloseOnMessage),
             Mode::ErrorReplies => mock.set_fault(Fault::ErrorReplies),
+            Mode::StallThenResume => mock.set_fault(Fault::StallReads),
             _ => {}
         }
         o.label(&format!("mirror:{:?}", m.mode));
@@ -280,14 +284,59 @@ async fn run_case(c: &Case, ctx: &mut WorkerCtx) -> Outcome {
             problems
         }));
     }
+    // ---- a stalled mirror: bulk traffic through its mirrored server's shard, then the mirror reads on
+    let stalled: Vec<usize> = c.mirrors.iter().enumerate().filter(|(_, m)| m.mode == Mode::StallThenResume).map(|(i, _)| i).collect();
+    let mut bulk_handle = None;
+    if let Some(&mi) = stalled.first() {
+        let shard = c.mirrors[mi].shard;
+        let cli = env.client(40, "u", "db", "pw", &[]).await;
+        bulk_handle = Some(tokio::spawn(async move {
+            let mut problems: Vec<(String, String)> = vec![];
+            let mut cli = match cli {
+                Ok(c) => c,
+                Err(e) => return vec![("login".to_string(), e)],
+            };
+            let (_m, e) = cli.simple(&format!("SET SHARD TO '{}'", shard), wire::T_REPLY).await;
+            if !matches!(e, ReadEnd::Ready(_)) {
+                return vec![("set-shard".to_string(), format!("{:?}", e))];
+            }
+            let pad = "x".repeat(1 << 20);
+            for _ in 0..10 {
+                let t = cli.tag();
+                let started = Instant::now();
+                let (m, e) = cli.simple(&format!("{} SELECT v FROM t /* {} */", t.render(), pad), wire::T_REPLY).await;
+                if !matches!(e, ReadEnd::Ready(_)) || m.iter().any(|x| x.code == b'E') {
+                    problems.push(("client-not-answered".into(), format!("1 MiB statement {} ended {:?} {:?}", t.short(), e, crate::cli::errors(&m))));
+                    break;
+                }
+                if started.elapsed().as_millis() > 900 {
+                    problems.push(("added-waiting".into(), format!("1 MiB statement {} took {} ms while a mirror was stalled", t.short(), started.elapsed().as_millis())));
+                    break;
+                }
+            }
+            cli.close();
+            problems
+        }));
+    }
+    if !stalled.is_empty() {
+        tokio::time::sleep(std::time::Duration::from_millis(750)).await;
+        for mi in &stalled {
+            env.mocks[n_main + *mi].set_fault(Fault::Up);
+        }
+    }
     let mut problems = vec![];
+    if let Some(h) = bulk_handle {
+        if let Ok(p) = h.await {
+            problems.extend(p);
+        }
+    }
     for h in handles {
         if let Ok(p) = h.await {
             problems.extend(p);
         }
     }
     // let healthy mirrors drain their queue
-    tokio::time::sleep(std::time::Duration::from_millis(60)).await;
+    tokio::time::sleep(std::time::Duration::from_millis(if stalled.is_empty() { 60 } else { 600 })).await;
     let log = env.log();
     let stderr = env.pg.stderr_tail(500);
     env.finish().await;
